@@ -40,6 +40,7 @@ type c18Case struct {
 	FifoPauseMS int    `json:"fifopausems,omitempty"` // fifo input: the writer pauses this long after half of the text
 	SameStat    bool   `json:"samestat,omitempty"`    // file input: the path held other text of the same length and the same times when it was parsed just before
 	NameForm    int    `json:"nameform,omitempty"`    // odd-name: which spelling of the file name is handed to the parsers
+	Neighbour   int    `json:"neighbour,omitempty"`   // other parsing in the same process meanwhile: 1 the consumer calls the callback parser between receives, 2 a second channel parser delivers another stream at the same time, 3 a goroutine keeps running the callback parser
 	BOM         bool   `json:"bom"`                   // the text starts with a UTF-8 byte order mark (both parsers must treat it alike)
 }
 
@@ -134,7 +135,117 @@ func c18ProducerParked(dump string) bool {
 	return false
 }
 
+// c18Between is what the consumer does between two receives (nil: nothing); set by checkC18 for the case at hand.
+var c18Between func() *vFailure
+
+// c18NeighbourText is a stream other than the one under test, at least as long as it.
+func c18NeighbourText(n int) string {
+	var b strings.Builder
+	for i := 0; b.Len() < n+200; i++ {
+		fmt.Fprintf(&b, "nb~rec %d:\n  nb~x: %d\n  nb~y: 22\n# neighbour\n", i, i+11)
+	}
+	return b.String()
+}
+
+func c18Callback(text string) []c18Event {
+	var evs []c18Event
+	err := parser.ParseStreamCallback(strings.NewReader(text), parser.NewDefaultConfig(), func(n *shared.ParserNode, e error) (bool, error) {
+		if e != nil {
+			return true, e
+		}
+		evs = append(evs, c18Event{Kind: "node", Rec: vGotFromNode(n)})
+		return false, nil
+	})
+	if err != nil {
+		return append(evs, c18Event{Kind: "error", Err: err.Error()})
+	}
+	return append(evs, c18Event{Kind: "done"})
+}
+
+// checkC18 runs the case; when the case asks for it, other parsing goes on in the same process meanwhile (a consumer
+// that looks something up in another file between two receives, a second stream delivered by a second Parser, a
+// goroutine that parses on its own). Every parse, the one under test and the neighbours, must see its own stream only.
 func checkC18(c c18Case, ctx *vCtx) *vFailure {
+	if c.Neighbour == 0 || c.Input == "huge" {
+		c18Between = nil
+		if c.Input == "huge" {
+			return checkC18Huge(c, ctx)
+		}
+		return checkC18One(c, ctx)
+	}
+	ctx.Labelf("neighbour=%d", c.Neighbour)
+	nbText := c18NeighbourText(len(c.Doc.Render()))
+	nbWant := c18Fmt(c18Callback(nbText))
+	var fail *vFailure
+	switch c.Neighbour {
+	case 1:
+		c18Between = func() *vFailure {
+			if got := c18Fmt(c18Callback(nbText)); got != nbWant {
+				return vFailf("the callback parser, called by the consumer between two receives on another text, reports %s; on its own it reports %s", vTrunc(got, 600), vTrunc(nbWant, 600))
+			}
+			return nil
+		}
+		fail = checkC18One(c, ctx)
+		c18Between = nil
+	case 2:
+		c18Between = nil
+		p2 := parser.NewParser(parser.NewDefaultConfig())
+		go p2.ParseStream(&vSlowReader{r: strings.NewReader(nbText), delays: []int{0, 1, 0, 20}})
+		res := make(chan string, 1)
+		go func() {
+			var evs []c18Event
+			for {
+				select {
+				case n := <-p2.Nodes:
+					evs = append(evs, c18Event{Kind: "node", Rec: vGotFromNode(n)})
+				case err := <-p2.Errors:
+					evs = append(evs, c18Event{Kind: "error", Err: err.Error()})
+				case <-p2.Done:
+					res <- c18Fmt(append(evs, c18Event{Kind: "done"}))
+					return
+				}
+				runtime.Gosched()
+			}
+		}()
+		fail = checkC18One(c, ctx)
+		select {
+		case got := <-res:
+			if fail == nil && got != nbWant {
+				fail = vFailf("a second Parser delivering another stream at the same time received %s; on its own that stream gives %s", vTrunc(got, 600), vTrunc(nbWant, 600))
+			}
+		case <-time.After(30 * time.Second):
+			if fail == nil {
+				vFault("C18: the neighbouring parser did not finish within 30 s (inconclusive)")
+			}
+		}
+	default:
+		c18Between = nil
+		stop, res := make(chan struct{}), make(chan string, 1)
+		go func() {
+			bad := ""
+			for {
+				select {
+				case <-stop:
+					res <- bad
+					return
+				default:
+				}
+				if got := c18Fmt(c18Callback(nbText)); got != nbWant && bad == "" {
+					bad = got
+				}
+				runtime.Gosched()
+			}
+		}()
+		fail = checkC18One(c, ctx)
+		close(stop)
+		if bad := <-res; fail == nil && bad != "" {
+			fail = vFailf("the callback parser running in another goroutine on another text reported %s; on its own it reports %s", vTrunc(bad, 600), vTrunc(nbWant, 600))
+		}
+	}
+	return fail
+}
+
+func checkC18One(c c18Case, ctx *vCtx) *vFailure {
 	text := c.Doc.Render()
 	if c.LongLine > 0 {
 		if i := strings.Index(text, "\n"); i >= 0 {
@@ -462,6 +573,11 @@ func checkC18(c c18Case, ctx *vCtx) *vFailure {
 			}
 		}
 		step++
+		if c18Between != nil {
+			if f := c18Between(); f != nil {
+				return f
+			}
+		}
 		if !stall.Stop() {
 			select {
 			case <-stall.C:
@@ -597,6 +713,7 @@ func genC18(t *rapid.T) c18Case {
 	c.Comment = []int{0, 0, 0, 1, 2}[rapid.IntRange(0, 4).Draw(t, "config")]
 	c.Warmup = []int{0, 0, 0, 1, 2}[rapid.IntRange(0, 4).Draw(t, "warmup")]
 	c.BOM = rapid.IntRange(0, 9).Draw(t, "bom") == 0
+	c.Neighbour = []int{0, 0, 0, 0, 1, 1, 2, 3}[rapid.IntRange(0, 7).Draw(t, "neighbour")]
 	c.EOFWithData = rapid.IntRange(0, 2).Draw(t, "eofwithdata") == 0
 	c.SameStat = rapid.Bool().Draw(t, "samestat")
 	c.Transient = rapid.IntRange(0, 2).Draw(t, "transient") == 0
@@ -612,7 +729,118 @@ func genC18(t *rapid.T) c18Case {
 	return c
 }
 
+// vSynthReader produces head, then comment lines up to pad bytes, then tail, without holding them in memory.
+type vSynthReader struct {
+	head, tail string
+	pad        int64
+	line       []byte
+	pos        int64
+}
+
+func (r *vSynthReader) Read(p []byte) (int, error) {
+	total := int64(len(r.head)) + r.pad + int64(len(r.tail))
+	if r.pos >= total {
+		return 0, io.EOF
+	}
+	n := 0
+	for n < len(p) && r.pos < total {
+		switch {
+		case r.pos < int64(len(r.head)):
+			k := copy(p[n:], r.head[r.pos:])
+			n, r.pos = n+k, r.pos+int64(k)
+		case r.pos < int64(len(r.head))+r.pad:
+			off := r.pos - int64(len(r.head))
+			rest := int64(len(r.head)) + r.pad - r.pos
+			chunk := r.line[off%int64(len(r.line)):]
+			if int64(len(chunk)) > rest {
+				chunk = chunk[:rest]
+			}
+			k := copy(p[n:], chunk)
+			n, r.pos = n+k, r.pos+int64(k)
+		default:
+			k := copy(p[n:], r.tail[r.pos-int64(len(r.head))-r.pad:])
+			n, r.pos = n+k, r.pos+int64(k)
+		}
+	}
+	return n, nil
+}
+
+// checkC18Huge: a stream of c.LongLine MiB (+1 MiB) of comment lines between two records, never held in memory.
+func checkC18Huge(c c18Case, ctx *vCtx) *vFailure {
+	line := []byte("# " + strings.Repeat("p", 4093) + "\n") // 4096 bytes, so the padding ends on a line end
+	mk := func() io.Reader {
+		return &vSynthReader{head: "first day:\n  a: 1\n", tail: "second day:\n  b: 2\n  c: 3\nthird day:\n  d: 4\n", pad: (int64(c.LongLine) + 1) << 20, line: line}
+	}
+	ctx.Labelf("huge=%dMiB", c.LongLine)
+	ctx.NonTrivial(true)
+	ctx.Run(1)
+	var want []c18Event
+	err := parser.ParseStreamCallback(mk(), parser.NewDefaultConfig(), func(n *shared.ParserNode, e error) (bool, error) {
+		if e != nil {
+			return true, e
+		}
+		want = append(want, c18Event{Kind: "node", Rec: vGotFromNode(n)})
+		return false, nil
+	})
+	if err != nil {
+		want = append(want, c18Event{Kind: "error", Err: err.Error()})
+	} else {
+		want = append(want, c18Event{Kind: "done"})
+	}
+	if len(want) != 4 {
+		return vFailf("the callback parser reports %s for a stream of %d MiB of comment lines between its first and its second record", c18Fmt(want), c.LongLine+1)
+	}
+	p := parser.NewParser(parser.NewDefaultConfig())
+	exited := make(chan struct{})
+	go func() { defer close(exited); p.ParseStream(mk()) }()
+	var got []c18Event
+	limit := time.After(20 * time.Minute)
+	for fin := false; !fin; {
+		select {
+		case n := <-p.Nodes:
+			got = append(got, c18Event{Kind: "node", Rec: vGotFromNode(n)})
+		case err := <-p.Errors:
+			got = append(got, c18Event{Kind: "error", Err: err.Error()})
+			fin = c.Policy == "documented"
+		case <-p.Done:
+			got = append(got, c18Event{Kind: "done"})
+			fin = true
+		case <-limit:
+			vFault("C18: the %d MiB stream was not delivered within 20 minutes (inconclusive)", c.LongLine+1)
+		}
+		if len(got) > 50 {
+			break
+		}
+	}
+	go func() { // let a producer that still has something to say come to an end
+		for {
+			select {
+			case <-exited:
+				return
+			case <-p.Nodes:
+			case <-p.Errors:
+			case <-p.Done:
+			}
+		}
+	}()
+	if c18Fmt(got) != c18Fmt(want) {
+		return vFailf("policy %s on a stream of %d MiB: received %s, the callback parser reports %s", c.Policy, c.LongLine+1, c18Fmt(got), c18Fmt(want))
+	}
+	return nil
+}
+
+func TestVerifC18Huge(t *testing.T) {
+	space := []c18Case{{Input: "huge", Policy: "drain", Procs: 2, LongLine: 1024}}
+	if vThorough() {
+		space = append(space, c18Case{Input: "huge", Policy: "documented", Procs: 2, LongLine: 2048}, c18Case{Input: "huge", Policy: "drain", Procs: 2, LongLine: 4096}, c18Case{Input: "huge", Policy: "drain", Procs: 2, LongLine: 8192})
+	}
+	vEnum(t, "C18", "c18.huge",
+		"a stream of 1 GiB + 1 MiB (thorough: also 2, 4 and 8 GiB) of comment lines between the first and the second of three records, produced on the fly: the channel parser must deliver what the callback parser reports (three records, then Done)",
+		fmt.Sprintf("%d cases", len(space)), len(space), func(i int) c18Case { return space[i] }, checkC18)
+}
+
 func init() {
+	vRegister("C18", "c18.huge", checkC18)
 	vRegister("C18", "c18.schedules", checkC18)
 	vRegister("C18", "c18.slowfifo", checkC18)
 }
@@ -637,6 +865,6 @@ func TestVerifC18SlowFifo(t *testing.T) {
 
 func TestVerifC18Schedules(t *testing.T) {
 	vRapid(t, "C18", "c18.schedules",
-		"parser configurations {default, zero Config, ';' comments} x inputs {valid files, files with 1-3 malformed lines, files with a line of 4 KiB..140 KiB, empty / comment-only, reader failing at a drawn offset with one of 9 error values, seekable reader already partly consumed, file closed before parsing, missing file, real file and named pipe through ParseFile; the Parser value fresh or reused after other streams} x consumer policy {documented loop: stop at first error or Done; drain: keep receiving until Done} x drawn schedule (Gosched calls and 0-200 us sleeps before each receive, producer slowed by a reader with drawn delays and chunking, GOMAXPROCS in {1,2,16}), built with the race detector; differential against the callback parser stopping at its first error; after a drain the producer goroutine must have exited; non-trivial = the input has an error or >=2 records",
+		"parser configurations {default, zero Config, ';' comments} x inputs {valid files, files with 1-3 malformed lines, files with a line of 4 KiB..140 KiB, empty / comment-only, reader failing at a drawn offset with one of 9 error values, seekable reader already partly consumed, file closed before parsing, missing file, real file and named pipe through ParseFile; the Parser value fresh or reused after other streams} x consumer policy {documented loop: stop at first error or Done; drain: keep receiving until Done} x drawn schedule (Gosched calls and 0-200 us sleeps before each receive, producer slowed by a reader with drawn delays and chunking, GOMAXPROCS in {1,2,16}) x other parsing in the same process meanwhile {none, the consumer calls the callback parser on another text between receives, a second Parser delivers another stream at the same time, a goroutine keeps running the callback parser - each of them must see its own stream only}, built with the race detector; differential against the callback parser stopping at its first error; after a drain the producer goroutine must have exited; non-trivial = the input has an error or >=2 records",
 		vBudget(4800, 160000), genC18, checkC18)
 }
